@@ -40,8 +40,15 @@ func loadPkgs(patterns ...string) map[string]*packages.Package {
 	return res
 }
 
+var written = map[string]bool{}
+
+// writeFile (re)writes a generated file; an unchanged file keeps its modification time so that lake does not rebuild
 func writeFile(name, content string) {
 	path := filepath.Join(*outDir, name)
+	written[path] = true
+	if old, err := os.ReadFile(path); err == nil && string(old) == content {
+		return
+	}
 	if err := os.WriteFile(path, []byte(content), 0o644); err != nil {
 		fatalf("write %s: %v", path, err)
 	}
@@ -53,10 +60,6 @@ func main() {
 	if err := os.MkdirAll(*outDir, 0o755); err != nil {
 		fatalf("mkdir: %v", err)
 	}
-	old, _ := filepath.Glob(filepath.Join(*outDir, "*.lean"))
-	for _, f := range old {
-		os.Remove(f)
-	}
 	pkgs := loadPkgs("./primitive", "./message", "./frame", "./datacodec", "./crc", "./segment", "./client",
 		"./datatype", "./compression/lz4", "./compression/snappy")
 	genConstants(pkgs["primitive"])
@@ -66,4 +69,11 @@ func main() {
 	genCrcFacts(pkgs["crc"], pkgs["segment"])
 	genDeepCopy(pkgs)
 	genEffects(pkgs)
+	// stale generated files (not produced by this run) are removed
+	old, _ := filepath.Glob(filepath.Join(*outDir, "*"))
+	for _, f := range old {
+		if !written[f] {
+			os.Remove(f)
+		}
+	}
 }
